@@ -73,12 +73,20 @@ func (ex *Exec) progressCheck(st *State, fr *Frame, to *ssa.BasicBlock) bool {
 	if fr.measures == nil {
 		fr.measures = map[int]*Term{}
 	}
-	prev, had := fr.measures[to.Index]
-	fr.measures[to.Index] = cur
-	if !had {
+	// measures at the two previous visits of this header (keys 2*idx, 2*idx+1)
+	prev, had1 := fr.measures[2*to.Index]
+	prev2, had2 := fr.measures[2*to.Index+1]
+	fr.measures[2*to.Index] = cur
+	if had1 {
+		fr.measures[2*to.Index+1] = prev
+	}
+	if !had1 || !had2 {
 		return true
 	}
-	if !ex.check(st, tNot(bvCmp("bvsgt", cur, prev)), "progress", "loop iteration consumed no input (the loop need not terminate)", to.Instrs[0]) {
+	// an iteration that consumed nothing was followed by another complete iteration that
+	// consumed nothing either: nothing forces the loop to stop
+	bad := tAnd(tNot(bvCmp("bvsgt", cur, prev)), tNot(bvCmp("bvsgt", prev, prev2)))
+	if !ex.check(st, bad, "progress", "two consecutive loop iterations consumed no input (the loop need not terminate)", to.Instrs[0]) {
 		ex.endPath(st, "progress")
 		return false
 	}
